@@ -901,6 +901,32 @@ pub fn scenarios(prop: &str, tier: &str) -> Vec<Cfg> {
                 c.delta = 2;
                 c.depth = d;
                 c.epilogue = Epilogue::Drain;
+                c.executor_drain = true;
+                v.push(c);
+            }
+            // more idle sources than the per-poll budget in front of ready ones; drained like an executor
+            for (k, pre) in [
+                (Kind::Mb(62), (0..62).map(|i| s(if i < 61 { "P" } else { "I" })).collect::<Vec<_>>()),
+                (Kind::Mb(70), (0..70).map(|i| s(if i < 61 { "P" } else { "II" })).collect::<Vec<_>>()),
+                (Kind::Mb(130), (0..130).map(|i| s(if i % 2 == 0 { "P" } else { "I" })).collect::<Vec<_>>()),
+                (Kind::Mu(100), (0..100).map(|i| s(if (32..93).contains(&i) { "P" } else { "I" })).collect::<Vec<_>>()),
+            ] {
+                let mut c = Cfg::new("C11", k);
+                c.name = format!("{:?} many idle sources in front of ready ones", k);
+                let n = pre.len();
+                c.prefill = pre;
+                c.specs = vec![s("I")];
+                c.ops = ops::POLL | ops::POLL_NEW | ops::COMPLETE;
+                if matches!(k, Kind::Mu(_)) {
+                    c.ops |= ops::PUSH;
+                }
+                c.costly = ops::COMPLETE | ops::POLL_NEW;
+                c.delta = 1;
+                c.depth = 4;
+                c.focus = focus_of(n);
+                c.epilogue = Epilogue::Drain;
+                c.executor_drain = true;
+                c.horizon = 8000;
                 v.push(c);
             }
             // pushes during consumption into a bounded merge whose sources end
@@ -912,6 +938,7 @@ pub fn scenarios(prop: &str, tier: &str) -> Vec<Cfg> {
                 c.ops = ops::POLL | ops::COMPLETE | ops::PUSH;
                 c.depth = d;
                 c.epilogue = Epilogue::Drain;
+                c.executor_drain = true;
                 v.push(c);
             }
             // group boundaries 32 -> 64 -> 128 of the unbounded merge; ends that empty a middle group
@@ -943,7 +970,7 @@ pub fn scenarios(prop: &str, tier: &str) -> Vec<Cfg> {
                 let mut c = Cfg::new("C12", k);
                 c.name = format!("{:?} prefill {}", k, pre);
                 c.prefill = (0..pre).map(|_| f(Mode::Gate)).collect();
-                c.specs = vec![f(Mode::Gate), f(Mode::Ready), f(Mode::Yield1)];
+                c.specs = vec![f(Mode::Gate), f(Mode::Ready), f(Mode::Yield1), f(Mode::YieldGate)];
                 c.ops = ops::PUSH | ops::POLL | ops::POLL_NEW | ops::COMPLETE | ops::WAKE | ops::STALE_WAKE;
                 if k.is_ordered() {
                     c.ops |= ops::PUSH_FRONT;
@@ -1116,6 +1143,29 @@ pub fn scenarios(prop: &str, tier: &str) -> Vec<Cfg> {
                 c.epilogue = Epilogue::Quiesce;
                 v.push(c);
             }
+            // many stale queue entries (children that wake themselves in the poll in which they
+            // complete, sources that wake themselves while ending) next to one pending child
+            for (k, n) in [(Kind::Fub(8), 6usize), (Kind::FubIter(7), 6), (Kind::FuNew, 6), (Kind::Fob(8), 6), (Kind::FuCap(1), 6), (Kind::Ja(7), 6)] {
+                let mut c = Cfg::new("C14", k);
+                c.name = format!("{:?}: one Gate and {} children that wake themselves while completing", k, n);
+                c.prefill = (0..=n).map(|i| f(if i == 0 { Mode::Gate } else { Mode::WakeReady })).collect();
+                c.ops = ops::POLL | ops::STALE_WAKE;
+                c.costly = ops::STALE_WAKE;
+                c.delta = 1;
+                c.focus = Some(vec![1, n as u32]);
+                c.depth = n + 2;
+                c.epilogue = Epilogue::Quiesce;
+                v.push(c);
+            }
+            {
+                let mut c = Cfg::new("C14", Kind::Mb(7));
+                c.name = "Mb(7): one pending source and 6 sources that wake themselves while ending".into();
+                c.prefill = (0..7).map(|i| s(if i == 0 { "P" } else { "!" })).collect();
+                c.ops = ops::POLL;
+                c.depth = 4;
+                c.epilogue = Epilogue::Quiesce;
+                v.push(c);
+            }
             for (k, pre) in family_m() {
                 let mut c = Cfg::new("C14", k);
                 c.name = format!("{:?}[{}]", k, pre.iter().map(|p| p.render()).collect::<Vec<_>>().join(","));
@@ -1175,7 +1225,7 @@ pub fn scenarios(prop: &str, tier: &str) -> Vec<Cfg> {
                 c.specs = vec![f(Mode::Gate), f(Mode::Ready)];
                 c.ops = ops::PUSH | ops::POLL | ops::COMPLETE | ops::PUSH_WHEN_FULL | ops::PANIC_PUSH;
                 if k.is_ordered() {
-                    c.ops |= ops::PUSH_FRONT;
+                    c.ops |= ops::PUSH_FRONT | ops::EXTEND;
                 }
                 c.depth = d;
                 c.epilogue = Epilogue::Drain;
@@ -1199,9 +1249,9 @@ pub fn scenarios(prop: &str, tier: &str) -> Vec<Cfg> {
                 let mut c = Cfg::new("C17", k);
                 c.prefill = (0..pre).map(|_| f(Mode::Gate)).collect();
                 c.specs = vec![f(Mode::Gate), f(Mode::Ready)];
-                c.ops = ops::PUSH | ops::POLL | ops::COMPLETE;
+                c.ops = ops::PUSH | ops::POLL | ops::COMPLETE | ops::PUSH_WHEN_FULL | ops::PANIC_PUSH;
                 if k.is_ordered() {
-                    c.ops |= ops::PUSH_FRONT;
+                    c.ops |= ops::PUSH_FRONT | ops::EXTEND;
                 }
                 c.depth = d;
                 c.epilogue = Epilogue::Drain;
